@@ -7,6 +7,7 @@ import (
 	"io"
 	"net/url"
 	"path"
+	"regexp"
 	"strings"
 
 	"github.com/tsawler/tabula/htmldoc"
@@ -174,6 +175,22 @@ func (r *Reader) resolveHref(href string) string {
 	return path.Join(r.baseDir, href)
 }
 
+// selfClosingNonVoid matches an XML self-closing tag of an element that is not a
+// void element in HTML.
+var selfClosingNonVoid = regexp.MustCompile(`<(title|script|style|textarea|iframe|noscript|a|p|div|span|td|th|li|h[1-6])(\s[^<>]*)?/>`)
+
+// xhtmlForHTMLParser rewrites XML self-closing tags of non-void elements
+// ("<title/>", "<script src=.../>") as a start tag and an end tag. EPUB content
+// documents are XHTML, where such tags are legal; the HTML parser ignores the
+// slash and treats the rest of the file as the element's content, which made a
+// whole chapter disappear.
+func xhtmlForHTMLParser(content []byte) []byte {
+	if !bytes.Contains(content, []byte("/>")) {
+		return content
+	}
+	return selfClosingNonVoid.ReplaceAll(content, []byte("<$1$2></$1>"))
+}
+
 // readFile reads a file from the ZIP archive.
 func (r *Reader) readFile(zr *zip.Reader, name string) ([]byte, error) {
 	for _, f := range zr.File {
@@ -192,7 +209,7 @@ func (r *Reader) readFile(zr *zip.Reader, name string) ([]byte, error) {
 // extractChapterTitle extracts a title from the chapter content.
 func (r *Reader) extractChapterTitle(content []byte, index int) string {
 	// Try to parse and find the title
-	htmlReader, err := htmldoc.OpenReader(bytes.NewReader(content))
+	htmlReader, err := htmldoc.OpenReader(bytes.NewReader(xhtmlForHTMLParser(content)))
 	if err != nil {
 		return ""
 	}
@@ -256,7 +273,7 @@ func (r *Reader) TextWithOptions(opts ExtractOptions) (string, error) {
 
 	var parts []string
 	for _, chapter := range r.chapters {
-		htmlReader, err := htmldoc.OpenReader(bytes.NewReader(chapter.Content))
+		htmlReader, err := htmldoc.OpenReader(bytes.NewReader(xhtmlForHTMLParser(chapter.Content)))
 		if err != nil {
 			continue
 		}
@@ -299,7 +316,7 @@ func (r *Reader) markdown(opts ExtractOptions, headingOffset, maxHeadingLevel in
 
 	var parts []string
 	for _, chapter := range r.chapters {
-		htmlReader, err := htmldoc.OpenReader(bytes.NewReader(chapter.Content))
+		htmlReader, err := htmldoc.OpenReader(bytes.NewReader(xhtmlForHTMLParser(chapter.Content)))
 		if err != nil {
 			continue
 		}
@@ -329,7 +346,7 @@ func (r *Reader) Document() (*model.Document, error) {
 	}
 
 	for i, chapter := range r.chapters {
-		htmlReader, err := htmldoc.OpenReader(bytes.NewReader(chapter.Content))
+		htmlReader, err := htmldoc.OpenReader(bytes.NewReader(xhtmlForHTMLParser(chapter.Content)))
 		if err != nil {
 			continue
 		}
